@@ -125,7 +125,7 @@ func protect(f func() (string, error)) (res CallRes) {
 // wrappers below (those without an event channel, outside controlled executions) is repeated, in rotation, (a) with
 // debug=true, (b) through the entry point that takes no configuration (default clock: the dateCreated value is
 // masked on both sides), (c) for calls that start from the profile text: compiled first, then validated with the
-// compiled query. The outcomes must be identical. A difference is parked here and turned into a violation of the
+// compiled query, (d) with an event channel drained by a collector. The outcomes must be identical. A difference is parked here and turned into a violation of the
 // running check's property by the framework when the case ends.
 
 var twinCalls int64
@@ -147,13 +147,23 @@ func twinCompare(what string, r, r2 CallRes, maskDate bool) {
 
 // withTwins: f is the call (parameterised by debug); plain, if not nil, is the same call through the entry point
 // without configuration; viaCompile, if not nil, is the same call as CompileProfile + ValidateCompiledWithConfiguration.
-func withTwins(what string, defaults bool, f func(debug bool) (string, error), plain, viaCompile func() (string, error)) CallRes {
+func withTwins(what string, defaults bool, f func(debug bool) (string, error), plain, viaCompile func() (string, error), withCh func(ch *chan events.Event) (string, error)) CallRes {
 	r := protect(func() (string, error) { return f(false) })
 	n := atomic.AddInt64(&twinCalls, 1)
 	if n%8 != 0 || verifrt.Active != nil {
 		return r
 	}
-	switch (n / 8) % 3 {
+	switch (n / 8) % 4 {
+	case 3:
+		// the same call with an event channel (drained by a collector): the outcome must not depend on being observed,
+		// and the channel must have been closed by the library when the call returns
+		r2, closed, _ := withChan(1, func(ch *chan events.Event) CallRes {
+			return protect(func() (string, error) { return withCh(ch) })
+		})
+		twinCompare(what+" with an event channel", r, r2, false)
+		if !closed && DebugTwinDiff == "" {
+			DebugTwinDiff = what + " with an event channel: the channel was not closed when the call returned"
+		}
 	case 0:
 		twinCompare(what+" with debug=true", r, protect(func() (string, error) { return f(true) }), false)
 	case 1:
@@ -168,7 +178,9 @@ func withTwins(what string, defaults bool, f func(debug bool) (string, error), p
 	return r
 }
 
-func isDefaultConf(rc config.ReportConfiguration) bool { return rc == config.DefaultReportConfiguration() }
+func isDefaultConf(rc config.ReportConfiguration) bool {
+	return rc == config.DefaultReportConfiguration()
+}
 
 func viaCompile(profile, data string, clock config.ValidationConfiguration, rc config.ReportConfiguration) func() (string, error) {
 	return func() (string, error) {
@@ -189,7 +201,10 @@ func ValidateConf(profile, data string, clock config.ValidationConfiguration, rc
 	if ch == nil {
 		return withTwins("ValidateWithConfiguration", isDefaultConf(rc), func(debug bool) (string, error) {
 			return pkg.ValidateWithConfiguration(profile, data, debug, nil, clock, rc)
-		}, func() (string, error) { return pkg.Validate(profile, data, false, nil) }, viaCompile(profile, data, clock, rc))
+		}, func() (string, error) { return pkg.Validate(profile, data, false, nil) }, viaCompile(profile, data, clock, rc),
+			func(ch *chan events.Event) (string, error) {
+				return pkg.ValidateWithConfiguration(profile, data, false, ch, clock, rc)
+			})
 	}
 	return protect(func() (string, error) {
 		return pkg.ValidateWithConfiguration(profile, data, false, ch, clock, rc)
@@ -228,7 +243,10 @@ func ValidateCompiledConf(q *rego.PreparedEvalQuery, data string, clock config.V
 	if ch == nil {
 		return withTwins("ValidateCompiledWithConfiguration", isDefaultConf(rc), func(debug bool) (string, error) {
 			return pkg.ValidateCompiledWithConfiguration(q, data, debug, nil, clock, rc)
-		}, func() (string, error) { return pkg.ValidateCompiled(q, data, false, nil) }, nil)
+		}, func() (string, error) { return pkg.ValidateCompiled(q, data, false, nil) }, nil,
+			func(ch *chan events.Event) (string, error) {
+				return pkg.ValidateCompiledWithConfiguration(q, data, false, ch, clock, rc)
+			})
 	}
 	return protect(func() (string, error) {
 		return pkg.ValidateCompiledWithConfiguration(q, data, false, ch, clock, rc)
